@@ -219,6 +219,44 @@ def replay_observer(c):
     return bool(bad), f'contract {contract.str_info()} observer {seat}: ' + '; '.join(bad[:3])
 
 
+def replay_available_sequence(c):
+    from bridge_env import ObservedPlayingPhase, Player
+    contract = mk_contract(c['contract'])
+    deal = filled_deal(c['deal'])
+    seat = Player(c['observer'])
+    dummy = contract.declarer.partner
+    hands = {p: {card_of(i) for i in deal[p]} for p in range(1, 5)}
+    obs = ObservedPlayingPhase(contract, seat, set(hands[seat.value]))
+    bad = []
+    led = None
+
+    def rule(hand):
+        same = {x for x in hand if led is not None and x.suit is led.suit}
+        return same if same else set(hand)
+
+    def query(when):
+        if set(obs.current_available_cards_in_hand()) != rule(hands[seat.value]):
+            bad.append(f'{when}: playable set of the own hand is not the follow-suit rule on the current hand')
+        if seat is not dummy and obs.dummy_hand is not None and set(obs.current_available_cards_in_dummy_hand()) != rule(hands[dummy.value]):
+            bad.append(f'{when}: playable set of dummy\'s hand is not the follow-suit rule on the current hand')
+    query('before the opening lead')
+    turn = contract.declarer.left
+    for k, i in enumerate(c['cards']):
+        card = card_of(i)
+        if card not in hands[turn.value]:
+            return False, 'counterexample plays a card the seat does not hold'
+        obs.play_card_by_player(card, turn)
+        hands[turn.value].discard(card)
+        if k == 0:
+            led = card
+            if seat is not dummy:
+                obs.set_dummy_hand(set(hands[dummy.value]))
+        if k < 3:
+            query(f'after play {k} ({card} by {turn})')
+        turn = turn.left
+    return bool(bad), f'observer {seat}, contract {contract.str_info()}: ' + '; '.join(bad[:3])
+
+
 def replay(c):
     import copy
     if c.get('kind') == 'observer':
@@ -232,6 +270,8 @@ def replay(c):
         return bool(bad), f'session {c["session"]}: ' + '; '.join(bad[:3])
     if c.get('kind') == 'available':
         return replay_available(c)
+    if c.get('kind') == 'available_sequence':
+        return replay_available_sequence(c)
     if c.get('kind') == 'available_state':
         return replay_available_state(c)
     from bridge_env import Hands, Player, PlayingPhaseWithHands
